@@ -229,7 +229,7 @@ def check_screen(c: dict) -> list:
             if p is not None:
                 exp[p] += w[i]
         tol = 1e-5 * max(w.max(), 1e-30)
-        if np.abs(img - exp).max() > tol:
+        if not np.abs(img - exp).max() <= tol:
             live = [i for i, p in enumerate(pix) if p is not None and w[i] > 0]
             if len(live) == 1 and exp.max() > 0:
                 got = np.unravel_index(int(np.argmax(img)), img.shape)
